@@ -290,10 +290,15 @@ def run(tier: str, seed: int) -> core.Report:
     rep.extra.update({"pairs_enumerated_by_tlc": len(list(res.printed())), "monitor_hits": dict(hits), "executions_that_left_the_specification (drift)": drift})
     rep.samples = [{"prog": pairs[0]["prog"], "schedule": pairs[0]["hist"]}]
     rep.assumptions = ["tasks need (virtual) time after cancellation and for tearing down their own context", "a crash cancels the teardown itself: only 'does not vanish' is demanded then"]
+    from .. import suitectx
+    suitectx.add_to(rep, PROP)
     return rep
 
 
 def replay(scenario):
+    if "recorded" in scenario:
+        from .. import suitectx
+        return suitectx.replay(PROP, scenario)
     t = execute(dict(scenario["case"], id="replay"))
     verdicts, _, _ = core.validate_traces("Trace_C08", [t])
     v = verdicts["replay"]
